@@ -7,7 +7,7 @@ from core import Case, call_impl, psec
 from props.tr31util import VERS, rb, rs, rand_blocks, make_header, wrap_case, tr31
 from props.cardutil import digits
 
-OBLIGATIONS = []
+OBLIGATIONS = ["Psec.Props.C14.wrap_pad_is_entropy", "Psec.Props.C14.wrap_injective_in_pad", "Psec.Props.C14.choice_uniform", "Psec.Props.C14.choice6_step", "Psec.Props.C14.iso3_fill_is_choice", "Psec.Props.C14.iso3_consumes_exactly", "Psec.Props.C14.iso4_random_half", "Psec.Props.C14.iso4_injective_in_rnd", "Psec.Props.C14.C14_full_iso4_of_uniform"]
 TRUSTED_BASE = ["Lean 4.33 kernel", "ASSUMED: os.urandom is a cryptographically secure generator (no executable model can exhibit 'unpredictable')",
                 "CPython's SystemRandom.choice algorithm as modelled (rejection sampling of urandom(1)[0] >> 5)",
                 "interposition on os.urandom / random._urandom before psec is imported sees every byte of OS entropy the calls obtain",
